@@ -65,6 +65,10 @@ def make_input(seed, i):
     if isinstance(case["data"]["T"], int):
         case["data"]["T"] = 70
     case["nproc"] = 3
+    if i % 2 == 0:
+        # a run that repopulates a cluster in its second round (state kept about "this run's" donations must not outlive a failure)
+        case["init"] = dict(kind="giant", small=1)
+        case["limit"] = 4
     return case
 
 
